@@ -649,7 +649,7 @@ pub fn c07(seed: u64, thorough: bool) -> Scenario {
             // Mostly for a few retry periods; sometimes for ever (known finding F3).
             let retry = b.sc.params[0].sync_retry_delay * 1_000;
             let t0 = heal.saturating_sub(b.t_us);
-            let t1 = if b.r.chance(0.85) { heal + b.r.range(retry + 6_000_000, 3 * (retry + 6_000_000)) } else { FOREVER };
+            let t1 = if b.r.chance(0.85) { heal + b.r.range(retry + 14_000_000, 2 * (retry + 14_000_000)) } else { FOREVER };
             b.sc.net.rules.push(Rule { t0_us: t0, t1_us: t1, src: bit(lagger), dst: bit(p), bidir: false, svc_mask: 1 << SVC_CONSENSUS, kind: RuleKind::Stall, reply_only: false, label: "deaf-sync-target".into() });
             b.sc.bounds.deaf = Some((p, t0, t1));
             deaf_extra = if t1 == FOREVER { 0 } else { (t1 - heal) + (t1 - heal) / 3 };
